@@ -215,7 +215,7 @@ def register_harness(res):
         run_vh([mode, "--in", sp_m, "--out", rp_m], timeout=3000)
         # records are self-contained states in the recorder's breadth-first order, each carrying its whole message log.
         # On a harness whose clients never stop the logs (and the file) grow without bound and the judge would die of
-        # size (a tool error instead of a verdict): judge the first 40 MB of each mode, which is everything on a
+        # size (a tool error instead of a verdict): judge the first 40 MB of each mode and only states whose log has at most 150 entries (conforming logs have ~15), which is everything on a
         # conforming tree (a few MB) and contains the early states, where a protocol violation first shows, otherwise
         budget, kept, dropped = 40_000_000, 0, 0
         with open(rp_m) as fh:
@@ -225,8 +225,11 @@ def register_harness(res):
                 if budget - len(line) < 0 and '"summary"' not in line[:200]:
                     dropped += 1
                     continue
-                budget -= len(line)
                 x = json.loads(line)
+                if not x.get("summary") and len(x["state"]["log"]) > 150:
+                    dropped += 1          # (the judge's folds over the log are recursive: thousands of entries overflow its stack)
+                    continue
+                budget -= len(line)
                 x["sys"] = idx[x["sys"] - 1] + 1
                 recs.append(x)
                 kept += 1
